@@ -296,12 +296,16 @@ operator/ (mpz_class v1, mpz_class v2)
       neg = ! neg;
     }
 
-  if (neg)
-    v1 = v1 + (v2 - 1);
-
+  // v1 and v2 are now magnitudes.  Floor division rounds a negative
+  // quotient away from zero when there is a remainder.  The quotient
+  // can't be UINT64_MAX in that case, so the increment doesn't wrap.
   mpz_class ret {v1.m_u / v2.m_u, signedness::unsign};
   if (neg)
-    ret = -ret;
+    {
+      if (v1.m_u % v2.m_u != 0)
+	++ret.m_u;
+      ret = -ret;
+    }
 
   return ret;
 }
@@ -312,6 +316,21 @@ operator% (mpz_class v1, mpz_class v2)
   if (v2.m_u == 0)
     int_error (describe_div_0 (v1, v2, '%'));
 
-  mpz_class d = v1 / v2;
-  return v1 - v2 * d;
+  // Compute on magnitudes: the intermediate product v2 * (v1 / v2)
+  // may be out of range even though the remainder never is.
+  bool neg1 = v1 < 0;
+  bool neg2 = v2 < 0;
+  uint64_t a = neg1 ? (-v1).m_u : v1.m_u;
+  uint64_t b = neg2 ? (-v2).m_u : v2.m_u;
+
+  // The result takes the sign of the divisor.
+  uint64_t r = a % b;
+  if (r != 0 && neg1 != neg2)
+    r = b - r;
+
+  mpz_class ret {r, signedness::unsign};
+  if (neg2)
+    ret = -ret;
+
+  return ret;
 }
